@@ -1024,4 +1024,26 @@ theorem C16_lengths_sanitized_legal (npre nsamp : Int) :
 example : sanitizeLengths 500 501 = (500, 501) ∧ sanitizeLengths 3 4 = (3, 4) ∧
     sanitizeLengths 0 0 = (400, 800) ∧ sanitizeLengths 500 500 = (500, 1000) ∧ sanitizeLengths (-5) 100 = (400, 800) := by decide
 
+/-! ### a save whose write of the temporary file fails -/
+
+/-- A failed write of the temporary file aborts the save: the standard file and the backup are exactly
+what they were (only the temporary file is left created/truncated/partial). -/
+theorem C16_failed_write_keeps_old (fs : FS) (c : Content) (j : Nat) :
+    (failRun c saveOps fs 0 j).main = fs.main ∧ (failRun c saveOps fs 0 j).bak = fs.bak := by
+  obtain ⟨m, t, b⟩ := fs
+  simp [failRun, saveOps, execFail, polOf, continues, FS.set]
+
+/-- Whichever step is hit by the failure (only a write can fail this way) and however many bytes got
+written: the next start-up finds the file and reads the complete old or the complete new version. -/
+theorem C16_failed_write_safe (fs : FS) (old new : Content) (w j : Nat) (h : fs.main = some old) :
+    chkCrash old new (startup (failRun new saveOps fs w j)) = true := by
+  apply chkCrash_of_main
+  obtain ⟨m, t, b⟩ := fs
+  simp only at h; subst h
+  rcases w with _ | _ | _ | _ | w <;> cases b <;>
+    simp [failRun, saveOps, execFail, execOp, crashRun, polOf, continues, FS.get, FS.set]
+
+example : failRun [2, 2] saveOps { main := some [1], tmp := some [9], bak := some [0] } 0 0
+    = { main := some [1], tmp := some [], bak := some [0] } := by decide
+
 end DastardV.C16
